@@ -9,7 +9,7 @@ import al_astar as AL
 import genlib as G
 
 A = "routee-compass-core/src/algorithm/search/"
-OBLIGATIONS = ["vertex_oriented_route", "lemma_route_contiguous", "lemma_route_exists_step"]
+OBLIGATIONS = ["vertex_oriented_route", "edge_oriented_route", "lemma_route_contiguous", "lemma_route_exists_step"]
 MUST_FAIL = ["vacuity_probe"]
 
 SPEC = """
@@ -131,6 +131,23 @@ def build(x):
         if n == 0 { assert(vs[0] == target_id); } else { assert(vs[0] != source_id); }
     }""")
     parts.append(f.text + "\n")
+    # ---- edge_oriented_route: the route between the END POINTS of the two edges ----
+    parts.append("""
+use std::sync::Arc;
+impl Graph {
+    #[verifier::external_body] pub fn src_vertex_id(&self, e: &EdgeId) -> (r: Result<VertexId, SearchError>)
+        ensures r matches Ok(v) ==> v == edge_of(self, *e).src_vertex_id, r matches Err(err) ==> !(err is NoPathExistsBetweenVertices) && !(err is TerminationModelFailure) { unimplemented!() }
+    #[verifier::external_body] pub fn dst_vertex_id(&self, e: &EdgeId) -> (r: Result<VertexId, SearchError>)
+        ensures r matches Ok(v) ==> v == edge_of(self, *e).dst_vertex_id, r matches Err(err) ==> !(err is NoPathExistsBetweenVertices) && !(err is TerminationModelFailure) { unimplemented!() }
+}
+""")
+    eo = x.fn(A + "backtrack.rs", "fn edge_oriented_route")
+    eo.name_return("r")
+    eo.add_spec("""    ensures
+        // the route runs from the vertex the origin edge LEAVES to the vertex the destination edge ARRIVES at (so that, with the wrappers' entries, it starts with the
+        // origin edge and ends with the destination edge)
+        r matches Ok(route) ==> route_ok(edge_of(&*graph, source_id).src_vertex_id, edge_of(&*graph, target_id).dst_vertex_id, solution@, route@),""")
+    parts.append(eo.text + "\n")
     parts.append(LEMMAS)
     parts.append("""
 // vacuity guard: MUST FAIL
